@@ -80,6 +80,15 @@ F4 ==
                  IF tv1 THEN [E0 |-> I("", "E0_in", ""), E1 |-> I("v1", "E1_in", "")] ELSE [E0 |-> I("", "E0_in", "")],
                  rb, FALSE)
 
+(* F4M: several static routes to one destination (next hops gA, gB): the device holds some of them *)
+MRoutes == [vrf : {""}, dst : {"n14", "n12"}, gw : {"gA", "gB"}]
+F4M ==
+  \E ra0 \in SUBSET MRoutes, rb \in SUBSET MRoutes, long \in {"", "gBd"} :
+    LET ra == IF long = "" THEN ra0 ELSE {IF r.gw = "gB" THEN [r EXCEPT !.gw = long] ELSE r : r \in ra0} IN
+    /\ (long # "" => \E r \in ra0 : r.gw = "gB")
+    /\ dev = Cfg([E0_in |-> Keep], [E0 |-> I("", "E0_in", "")], ra, FALSE)
+    /\ tgt = Cfg([E0_in |-> Keep], [E0 |-> I("", "E0_in", "")], rb, FALSE)
+
 (* F7: content outside Netspoc's scope: unknown interface, unmanaged VRF, spare ACL *)
 F7 ==
   \E a, b \in InjSeqs(Pool, MaxLen),
@@ -206,7 +215,7 @@ S1 ==
     /\ dev = Cfg([E0_in |-> a \o tail], [E0 |-> I("", "E0_in", "")], {}, FALSE)
     /\ tgt = Cfg([E0_in |-> b \o tail], [E0 |-> I("", "E0_in", "")], {}, FALSE)
 
-Init == CASE Fam = "S1" -> S1 [] Fam = "M2L" -> M2L [] Fam = "V2" -> V2 [] Fam = "V1L" -> V1L [] Fam = "F1L" -> F1L [] Fam = "M1" -> M1 [] Fam = "F1" -> F1 [] Fam = "F3" -> F3 [] Fam = "F4" -> F4 [] Fam = "F7" -> F7 [] Fam = "F8" -> F8
+Init == CASE Fam = "S1" -> S1 [] Fam = "M2L" -> M2L [] Fam = "V2" -> V2 [] Fam = "V1L" -> V1L [] Fam = "F1L" -> F1L [] Fam = "M1" -> M1 [] Fam = "F1" -> F1 [] Fam = "F3" -> F3 [] Fam = "F4" -> F4 [] Fam = "F4M" -> F4M [] Fam = "F7" -> F7 [] Fam = "F8" -> F8
 Next == UNCHANGED <<dev, tgt>>
 Out == PrintT(<<"VOUT", ToJson([fam |-> Fam, dev |-> dev, tgt |-> tgt, tie |-> FALSE])>>)
 =============================================================================
